@@ -15,7 +15,7 @@ type seededMeta struct {
 	Property string   `json:"property"`
 	Also     []string `json:"also_breaks,omitempty"` // other claimed properties this change genuinely breaks
 	Needs    string   `json:"needs"`
-	Expect   string   `json:"expect,omitempty"` // "holds": a negative control - the property still holds, nothing may fire
+	Expect   string   `json:"expect,omitempty"` // "holds": a negative control - the property still holds, nothing may fire; "documented-miss": breaks the property, known not to be caught in the quick tier
 	Source   string   `json:"source"`
 }
 
@@ -124,6 +124,11 @@ func selftestSensitivity(args []string) int {
 			if expect >= 0 && code != expect {
 				status = "UNEXPECTED"
 				bad++
+				if meta.Expect == "documented-miss" && p == meta.Property && code == 0 {
+					// a seeded change the quick tier is known not to catch (DESIGN 13.5/13.6): reported, not counted
+					status = "documented miss"
+					bad--
+				}
 			}
 			keys := []string{}
 			for _, l := range strings.Split(string(out), "\n") {
